@@ -7,6 +7,7 @@ regenerated from /repo/starsim/distributions.py on every run.
 -/
 import StarsimModel.Lemmas.Rng
 import StarsimModel.Generated.SeedFacts
+import StarsimModel.Generated.StreamSites
 
 namespace StarsimModel.C04
 open StarsimModel.Rng
@@ -209,6 +210,68 @@ theorem C04_empty_request_no_state_change (d : Dist) (r : Bool) (hi : d.initiali
 theorem C04_reset_reuses_state :
     ∃ d ops, Coherent d ∧ ¬ (run d ops).2.Nodup :=
   ⟨(step (fresh true false) (.init 7 (some 3) false)).1, [.rvs 4 true, .rvs 4 false], by decide, by decide⟩
+
+/-! ### Code that touches a stream other than through `rvs` / `start_step` (regenerated: Generated/StreamSites.lean) -/
+
+/-- Every place where library code draws directly on a distribution's generator (which does not auto-advance) is followed,
+    in the same function, by a plain forward `jump()` on that distribution.  (Obligation on the regenerated table.) -/
+theorem C04_direct_sites_advance : ∀ s ∈ Gen.Stream.directSites, Followup.ofCode s.2.2 = .jump := by decide
+
+/-- **Helpers that use the generator directly.** A helper of the shape found at every direct-use site, called any number
+    of times with any request sizes from any coherent state (several times within a step included), never starts from a
+    state a previous call started from. -/
+theorem C04_direct_sites_no_reuse (d : Dist) (sizes : List Nat) (hc : Coherent d) :
+    ∀ s ∈ Gen.Stream.directSites, (run d (helperCalls (Followup.ofCode s.2.2) sizes)).2.Nodup := by
+  intro s hs
+  rw [C04_direct_sites_advance s hs]
+  exact C04_no_state_twice d _ (helperCalls_jump_loopOps sizes) hc
+
+/-- The same, interleaved with anything else the loop does: helper calls are loop operations. -/
+theorem C04_helper_calls_in_loop (d : Dist) (pre post : List Op) (sizes : List Nat) (hc : Coherent d)
+    (hpre : ∀ op ∈ pre, op.loopOp = true) (hpost : ∀ op ∈ post, op.loopOp = true) :
+    (run d (pre ++ helperCalls .jump sizes ++ post)).2.Nodup := by
+  apply C04_no_state_twice d _ _ hc
+  intro op hop
+  simp only [List.mem_append] at hop
+  rcases hop with (h | h) | h
+  · exact hpre op h
+  · exact helperCalls_jump_loopOps sizes op h
+  · exact hpost op h
+
+/-- Why the follow-up must be a jump: a helper that *resets* after its direct use starts its second call of a step from
+    the state the first call of the simulation started from (kernel-checked witness: two calls right after `init`, and two
+    calls in a later step). -/
+theorem C04_direct_then_reset_counterexample :
+    (∃ d sizes, Coherent d ∧ (∀ n ∈ sizes, n ≠ 0) ∧ ¬ (run d (helperCalls .reset sizes)).2.Nodup) ∧
+    (∃ d, Coherent d ∧ ¬ (run d (helperCalls .reset [5] ++ [.jumpDt 1 false] ++ helperCalls .reset [5, 5])).2.Nodup) :=
+  ⟨⟨(step (fresh true true) (.init 7 (some 3) false)).1, [5, 5], by decide, by decide, by decide⟩,
+   ⟨(step (fresh true true) (.init 7 (some 3) false)).1, by decide, by decide⟩⟩
+
+/-- Outside `distributions.py` the library issues exactly one stream operation that is not a loop operation: the forced
+    initialisation of all distributions in `Sim.init_dists`.  Every other call site is a loop operation, which is the
+    hypothesis `loopOp` of the theorems above; in particular nothing re-initialises, resets or forces a stream between a
+    simulation's initialisation and its end, whichever entry point runs it.  (Obligation on the regenerated table.) -/
+theorem C04_library_nonloop_ops :
+    Gen.Stream.nonLoopSites = [("starsim/sim.py", "Sim.init_dists", "init")] := by decide
+
+/-- **Whole life of a distribution** = that one initialisation followed by loop operations: no state twice, whatever the
+    object's history before (its index not negative). -/
+theorem C04_life_no_state_twice (d : Dist) (o : Nat) (s : Option Nat) (ops : List Op)
+    (hops : ∀ op ∈ ops, op.loopOp = true) (h : 0 ≤ d.ind) :
+    (life d o s ops).2.Nodup :=
+  C04_no_state_twice _ ops hops (C04_init_coherent d o s true h)
+
+/-- Why a second initialisation inside a life is excluded: re-seeding an initialised distribution with the seed it
+    already has (a forced `init`) puts the generator back to the state its first draw started from, while `ind` and
+    `called` keep their values — no guard notices (kernel-checked witness). -/
+theorem C04_reinit_counterexample :
+    ∃ d o s ops, 0 ≤ d.ind ∧ (∀ op ∈ ops, op.loopOp = true) ∧
+      ¬ (life d o s (ops ++ [.init o s true] ++ ops)).2.Nodup ∧
+      (life d o s (ops ++ [.init o s true])).1.ind = (life d o s ops).1.ind :=
+  ⟨fresh true true, 7, some 3, [.rvs 4 false], by decide, by decide, by decide, by decide⟩
+
+example : (life (fresh true true) 7 (some 3) (helperCalls .jump [5, 5] ++ [.jumpDt 1 false] ++ helperCalls .jump [5, 5])).2 =
+    [⟨0, []⟩, ⟨1, []⟩, ⟨1000, []⟩, ⟨1001, []⟩] := by decide
 
 /-! ### Non-vacuity: a 3-step, 2-distribution trace (the hypotheses are met by a concrete run) -/
 
